@@ -171,6 +171,7 @@ impl Paych {
             return None;
         }
         let mut others = 0i64;
+        let mut seen: Vec<u64> = vec![];
         for &(ml, mn) in &v.merges {
             if ml == v.lane {
                 return None;
@@ -179,7 +180,11 @@ impl Paych {
             if mn <= on {
                 return None;
             }
-            others += ored;
+            // what a merged lane already redeemed counts once, however often the list names it
+            if !seen.contains(&ml) {
+                others += ored;
+                seen.push(ml);
+            }
             n.lanes.insert(ml, (mn, ored));
         }
         let new_send = m.to_send + v.amount - lred - others;
@@ -355,6 +360,11 @@ impl Scenario for Paych {
                         }
                     }
                     merge_sets.push(vec![(lane, nonce)]); // merge into own lane: must be rejected
+                    if !others.is_empty() {
+                        // the same lane named twice in one merge list (increasing nonces): its
+                        // redeemed amount may be deducted once at most (KF-5: now rejected outright)
+                        merge_sets.push(vec![(others[0], 2), (others[0], 3)]);
+                    }
                     for ms in merge_sets {
                         v.push(Act::Update(Voucher { lane, nonce, amount, merges: ms, ..base.clone() }));
                     }
@@ -419,6 +429,11 @@ impl Scenario for Paych {
                         outcome = "accepted";
                     }
                     (None, false) => outcome = "rejected",
+                    (Some(_), false) if { let mut l: Vec<u64> = v.merges.iter().map(|x| x.0).collect(); l.sort(); l.windows(2).any(|w| w[0] == w[1]) } => {
+                        // a merge list naming a lane twice: the property fixes what an accepted
+                        // voucher may do (deduct once), not that it must be accepted
+                        outcome = "rejected";
+                    }
                     (Some(_), false) => {
                         outcome = "rejected";
                         viol = Some(format!("voucher the lane model accepts was rejected: {}", r.tree()));
@@ -521,7 +536,7 @@ pub fn run(tier: &str) -> ! {
     run.assumptions = vec![
         "mcvm mirrors the FVM message semantics (value transfer, rollback, caller validation)".into(),
         "signatures are faked: valid iff blake2b(signer key address || message)".into(),
-        "voucher `extra` calls and duplicate lanes inside one merge list are outside the alphabet".into(),
+        "voucher `extra` calls are outside the alphabet; a merge list naming a lane twice may be rejected or accepted with a single deduction".into(),
     ];
     run.add(mcx::explore(&scn, &b));
     run.finish()
